@@ -84,6 +84,7 @@ type c01Params struct {
 	collide    bool
 	aead       uint16
 	stale      bool
+	relayBuf   int // size of the backend -> client copy buffer
 }
 
 func curveList(c string, server bool) []tls.CurveID {
@@ -231,7 +232,9 @@ func oneHandshake(p c01Params, keys []ech.Key, clientCfg *tls.Config, backendCfg
 		// backend -> client
 		go func() {
 			defer wg.Done()
-			buf := make([]byte, 32*1024)
+			// the relay's copy buffer is reused for every chunk, as io.Copy does, and its size decides
+			// where the backend's records are cut
+			buf := make([]byte, p.relayBuf)
 			for {
 				n, err := f2.Read(buf)
 				if n > 0 {
@@ -375,6 +378,7 @@ func genC01(env *core.Env, emit func(core.Case)) {
 			collide:    r.IntN(2) == 0,
 			aead:       uint16(1 + r.IntN(3)),
 			stale:      r.IntN(4) == 0,
+			relayBuf:   []int{1460, 4096, 16384, 32 * 1024}[r.IntN(4)],
 		}
 		nl := []int{3, 5, 63, 200, 253}[r.IntN(5)]
 		p.innerName = dnsName(r.IntN, nl)
@@ -435,7 +439,7 @@ func genC01(env *core.Env, emit func(core.Case)) {
 		_ = ecdh.X25519
 		var runs []c01Run
 		if p.warm {
-			runs = append(runs, oneHandshake(c01Params{curves: p.curves, alpn: p.alpn, innerName: p.innerName, clientCert: p.clientCert, chain: p.chain, clientAuth: p.clientAuth}, keys, clientCfg, backendCfg, publicCfg, retryList))
+			runs = append(runs, oneHandshake(c01Params{curves: p.curves, alpn: p.alpn, innerName: p.innerName, clientCert: p.clientCert, chain: p.chain, clientAuth: p.clientAuth, relayBuf: p.relayBuf}, keys, clientCfg, backendCfg, publicCfg, retryList))
 		}
 		runs = append(runs, oneHandshake(p, keys, clientCfg, backendCfg, publicCfg, retryList))
 		for ri, run := range runs {
